@@ -1,8 +1,9 @@
 SPECIFICATION Spec
 CONSTANTS
+  Fault = "none"
   Cfgs <- QC_Cfgs
   Soc0s <- SocAll
-  Dts <- Dt3
+  Dts <- Dt2
   Engs <- Bools
   ClsOn <- QC_On
   ClsOff <- QC_Off
